@@ -196,6 +196,28 @@ fn run(ctx: &mut Ctx) {
             }
         }
     }
+    // family empty-word: the identity written as the empty word among the subgroup generators and among the
+    // relators (it imposes no condition; a generating set computed by a program easily contains it)
+    for g in finite_groups() {
+        let ws1 = reduced_words(g.ng, 2);
+        let mut sets: Vec<Vec<Word>> = vec![vec![vec![]]];
+        for w in &ws1 {
+            sets.push(vec![vec![], w.clone()]);
+            sets.push(vec![w.clone(), vec![]]);
+        }
+        let mut rels_e = g.rels.clone();
+        rels_e.push(vec![]);
+        let mut rels_f = vec![vec![]];
+        rels_f.extend(g.rels.iter().cloned());
+        for subs in sets {
+            if ctx.take() {
+                check_case(ctx, "empty-word", g.ng, &g.rels, &subs, g.order);
+                let nonempty: Vec<Word> = subs.iter().filter(|w| !w.is_empty()).cloned().collect();
+                check_case(ctx, "empty-word", g.ng, &rels_e, &nonempty, g.order);
+                check_case(ctx, "empty-word", g.ng, &rels_f, &subs, g.order);
+            }
+        }
+    }
     // family exhaustive
     for (ng, rel_len, max_rels) in [(2usize, tier.pick(5, 6), 3usize), (3, 3, tier.pick(4, 5))] {
         let classes = cyc_reduced_words(ng, rel_len);
